@@ -20,6 +20,7 @@ search:     every deviation is reduced to a concrete input; the ones listed in k
 import hashlib
 import json
 import os
+import re
 import shutil
 import subprocess
 import sys
@@ -64,6 +65,14 @@ def model_eval(model, tag, cases):
 def impl_eval(vh, cmd, cases, env=None):
     _, out, _ = vlib.run_lines([vh, cmd], [vlib.enc_case(c) for c in cases], env=env)
     return [vlib.dec_line(o) for o in out]
+
+
+TOKEN = re.compile(rb"\{(id|severity|cwe|message|remark|callstack|file|line|column|code|info)\}|\{inconclusive:[^{}]*\}")
+
+
+def documented_template(t):
+    """only documented fields and literal text without '{'"""
+    return b"{" not in TOKEN.sub(b"", t)
 
 
 def key_of(stream, c):
@@ -224,14 +233,14 @@ def check(run, replay):
     cwd0 = os.getcwd()
     os.chdir(scratch)   # {code}: source files named by the cases must not exist
     try:
-        streams_x1(run, rng, quick, model, vh, schema)
+        streams_x1(run, rng, quick, model, vh, schema, crit_ids)
         e2e(run, rng, quick, schema, scratch)
     finally:
         os.chdir(cwd0)
         shutil.rmtree(scratch, ignore_errors=True)
 
 
-def streams_x1(run, rng, quick, model, vh, schema):
+def streams_x1(run, rng, quick, model, vh, schema, crit_ids):
     N = (lambda q, t: q if quick else t)
     ver = impl_eval(vh, "header", [[b""]])[0][2]
 
@@ -271,7 +280,17 @@ def streams_x1(run, rng, quick, model, vh, schema):
     diffs = vlib.correspond(run, "toString", model, [vh, "tostr"], cs, tag="tostr",
                             nontrivial=lambda c, m, i: tuple(map(str, c)) if b"{" in c[1] else None,
                             bucket=lambda c, m, i: ("nostack" if c[15] == 0 else "stack%d" % min(c[15], 2)) + (",tloc" if c[2] else ""))
-    report_model_diffs(run, "toString", "tostr", diffs)
+    found = 0
+    if diffs:   # search: the property itself (documented meaning of the template) on the disagreeing inputs
+        dc = [c for c, _, _ in diffs]
+        for c, sp, im in zip(dc, model_eval(model, "tspec", dc), impl_eval(vh, "tostr", dc)):
+            if G.msg_is_clean_for_template(c[3:]) and documented_template(c[1]) and documented_template(c[2]) and sp[-1:] != im[-1:] and found < 3:
+                found += 1
+                run.violation(key_of("tostr-spec", c), "toString renders a finding differently from the documented meaning of the template although no value contains '{'",
+                              {"input": {"verbose": c[0], "template": vlib.show(c[1]), "template_location": vlib.show(c[2]), "finding": vlib.show(G.describe_msg(c[3:]))},
+                               "documented_meaning": vlib.show(sp), "implementation": vlib.show(im), "how": "echo '%s' | build/harness/vh_c26 tostr" % vlib.enc_case(c)})
+    if not found:
+        report_model_diffs(run, "toString", "tostr", diffs)
 
     # -- toString: the property (code vs documented meaning). Templates made of documented fields only.
     def pcase(clean):
@@ -307,7 +326,7 @@ def streams_x1(run, rng, quick, model, vh, schema):
     cs = fixed + [G.gen_msg(rng) for _ in range(N(4000, 100000))] + [G.gen_msg(rng, mode="plain", sev=rng.choice(G.SEV_DOC)) for _ in range(N(1500, 30000))]
     diffs = vlib.correspond(run, "toXML", model, [vh, "xml"], cs, tag="xml", nontrivial=lambda c, m, i: tuple(map(str, c)),
                             bucket=lambda c, m, i: "locs%d" % min(c[12], 2) + (",symbols" if c[11] else ""))
-    report_model_diffs(run, "toXML", "xml", diffs)
+    xml_diffs = diffs
     impl = impl_eval(vh, "xml", cs)
     info = model_eval(model, "xmlinfo", cs)
     st = run.stream("toXML-property")
@@ -361,6 +380,8 @@ def streams_x1(run, rng, quick, model, vh, schema):
             elif k not in known_seen or len(vlib.enc_case(c)) < len(vlib.enc_case(known_seen[k][0])):
                 known_seen[k] = (c, what, out[0])
     run = real_run
+    if not [p for p in pending if p[4]]:   # no concrete input found by evaluating the property: report the broken correspondence
+        report_model_diffs(run, "toXML", "xml", xml_diffs)
     for _, key, what, rep, fi in sorted(pending, key=lambda x: x[0])[:3]:
         run.violation(key, what, dict(rep, similar_deviations_this_run=len(pending)), found_input=fi)
     for k, (c, p, out) in known_seen.items():
@@ -379,14 +400,33 @@ def streams_x1(run, rng, quick, model, vh, schema):
                 m[0] = rng.choice(ids)
             c += m
         return c
-    cs = [[ver, 1] + PLAIN, [ver, 1] + PLAIN[:13] + [b"l\xe4.c", b"l\xe4.c", 1, 1, b""]] + [scase() for _ in range(N(1500, 40000))]
+    def dupcase():
+        """findings that share an id but differ in severity (different SARIF level classes), message or location"""
+        n = rng.randint(2, 4)
+        mid = rng.choice(G.IDS)
+        sevs = rng.sample([1, 2, 3, 4, 5, 6, 7], n)
+        c = [ver, n]
+        for k in range(n):
+            m = G.gen_msg(rng, mode=rng.choice(["plain", "xml"]), nlocs=rng.choice([1, 1, 2]), sev=sevs[k] if rng.random() < 0.8 else sevs[0])
+            m[0] = mid
+            c += m
+        return c
+    dup_fixed = [ver, 2] + with_(PLAIN, severity=5, short=b"first") + with_(PLAIN, severity=2, short=b"second")[:13] + [b"b.c", b"b.c", 9, 3, b""]
+    cs = [[ver, 1] + PLAIN, dup_fixed, [ver, 1] + PLAIN[:13] + [b"l\xe4.c", b"l\xe4.c", 1, 1, b""]] + \
+        [scase() if rng.random() < 0.6 else dupcase() for _ in range(N(1500, 40000))]
     diffs = vlib.correspond(run, "SarifReport::serialize", model, [vh, "sarif"], cs, tag="sarif",
                             nontrivial=lambda c, m, i: tuple(map(str, c)) if b'"ruleId"' in (i[0] if i else b"") else None,
                             bucket=lambda c, m, i: "findings%d" % c[1])
-    report_model_diffs(run, "SarifReport::serialize", "sarif", diffs)
+    sarif_diffs = diffs
     impl = impl_eval(vh, "sarif", cs)
     st = run.stream("SARIF-property")
     worst = None
+    carry_bad = []
+
+    def level_of(mid, sev):   # sarifreport.cpp sarifSeverity, written down independently of the Coq model
+        if mid in crit_ids or sev in (1, 2):
+            return "error"
+        return "warning" if sev in (3, 4, 5) else "note"
     for c, out in zip(cs, impl):
         st["evaluations"] += 1
         msgs, r = [], c[2:]
@@ -408,15 +448,28 @@ def streams_x1(run, rng, quick, model, vh, schema):
                 if not m[12]:
                     continue
                 locs = [(m[13 + 5 * k].decode("utf-8"), max(int(m[15 + 5 * k]), 1), max(int(m[16 + 5 * k]), 1)) for k in range(m[12])]
-                exp.append((m[0].decode("utf-8"), None, m[7].decode("utf-8"), locs))
-            if [(a, c_, d) for a, _, c_, d in got] != [(a, c_, d) for a, _, c_, d in exp]:
-                run.violation(key_of("sarif-carries", c), "SARIF results differ from the findings", {"case": vlib.show(c), "got": str(got)[:600], "expected": str(exp)[:600]})
+                exp.append((m[0].decode("utf-8"), level_of(m[0].decode("utf-8"), int(m[3])), m[7].decode("utf-8"), locs))
+            ids_ = [e_[0] for e_ in exp]
+            b_ = "repeated-id" if len(set(ids_)) < len(ids_) else "distinct-ids"
+            if len(set((e_[0], e_[1]) for e_ in exp)) > len(set(ids_)):
+                b_ = "repeated-id-different-level"
+            st["hist"][b_] = st["hist"].get(b_, 0) + 1
+            if got != exp:
+                carry_bad.append((len(vlib.enc_case(c)), c, msgs, got, exp))
         except (UnicodeDecodeError, ValueError) as ex:
             if nonutf:
                 if worst is None or len(vlib.enc_case(c)) < len(vlib.enc_case(worst[0])):
                     worst = (c, str(ex)[:150], out[0])
             else:
                 run.violation(key_of("sarif-json", c), "SARIF output is rejected by a JSON reader: " + str(ex)[:150], {"case": vlib.show(c), "sarif": vlib.show(out[0][:600])})
+    for _, c, msgs, got, exp in sorted(carry_bad, key=lambda x: x[0])[:2]:
+        wrong = [(g, e_) for g, e_ in zip(got, exp) if g != e_][:3] or [("count", len(got), len(exp))]
+        run.violation(key_of("sarif-carries", c), "SARIF results do not carry the findings (ruleId, level, message, locations): got/expected %s" % (str(wrong)[:300],),
+                      {"findings": [vlib.show(G.describe_msg(m)) for m in msgs], "sarif_results": str(got)[:1500], "expected_results": str(exp)[:1500],
+                       "similar_deviations_this_run": len(carry_bad),
+                       "how": "echo '%s' | build/harness/vh_c26 sarif   (end to end: two findings with the same id and severities of different SARIF levels, --output-format=sarif)" % vlib.enc_case(c)})
+    if not carry_bad:
+        report_model_diffs(run, "SarifReport::serialize", "sarif", sarif_diffs)
     if worst:
         c, ex, out = worst
         run.violation("sarif-nonutf8-name", "a string that is not valid UTF-8 (file name, id or message) is written raw into the SARIF document",
@@ -488,6 +541,11 @@ def e2e(run, rng, quick, schema, scratch):
         for k, t in enumerate(texts):
             esc = b"".join(bytes([c]) if 32 <= c < 127 and c not in b'"\\' else (b"\\u%04x" % c if c < 128 else bytes([c])) for c in t)
             inj.append(b'{"file":"main.c","linenr":%d,"column":%d,"severity":"style","message":"%s","addon":"inj","errorId":"e%d"}' % (k + 1, k + 2, esc, k))
+        exp_levels = {}
+        if scen == "messages":
+            for k, (sv, lvl) in enumerate([("style", "warning"), ("warning", "error"), ("portability", "warning")]):
+                inj.append(b'{"file":"main.c","linenr":%d,"column":1,"severity":"%s","message":"dup %d","addon":"inj","errorId":"dup"}' % (50 + k, sv.encode(), k))
+                exp_levels[(b"main.c", 50 + k, 1, b"inj-dup")] = (lvl, sv.encode())
         with open(os.path.join(d, "inject.py"), "w") as f:
             f.write(INJECT)
         with open(os.path.join(d, "inject.txt"), "w") as f:
@@ -506,6 +564,7 @@ def e2e(run, rng, quick, schema, scratch):
         for k, t in enumerate(texts):
             exp.add((b"main.c", k + 1, k + 2, b"inj-e%d" % k))
         exp_msgs = {b"inj-e%d" % k: t for k, t in enumerate(texts)}
+        exp |= set(exp_levels)
 
         # text
         got_text = {}
@@ -587,10 +646,16 @@ def e2e(run, rng, quick, schema, scratch):
         # sarif
         try:
             doc = json.loads(sarif)
-            got = set()
+            got = {}
             for x in doc["runs"][0]["results"]:
                 l = x["locations"][-1]["physicalLocation"] if x["ruleId"] != "nullPointerRedundantCheck" else x["locations"][0]["physicalLocation"]
-                got.add((l["artifactLocation"]["uri"].encode("utf-8"), l["region"]["startLine"], l["region"]["startColumn"], x["ruleId"].encode()))
+                got[(l["artifactLocation"]["uri"].encode("utf-8"), l["region"]["startLine"], l["region"]["startColumn"], x["ruleId"].encode())] = x["level"]
+            for key, (lvl, sv) in sorted(exp_levels.items()):
+                if key in got and got[key] != lvl:
+                    run.violation("e2e-sarif-level:" + hashlib.sha1(repr(key).encode()).hexdigest()[:10],
+                                  "SARIF gives level %r to finding %s of severity %s (expected %r)" % (got[key], vlib.show(list(key)), sv.decode(), lvl),
+                                  {"injected_findings": vlib.show(inj[-3:]), "sarif": vlib.show(sarif[:3000]),
+                                   "how": "an addon printing these three lines for main.c; cppcheck -q --enable=style --addon=inject.py --output-format=sarif ."})
             for key in sorted(exp):
                 st["evaluations"] += 1
                 st["nontrivial"].add(("sarif", rnd, scen) + key)
